@@ -262,10 +262,11 @@ macro_rules! by_mask {
             0 => $recv.$entry(matching!(3)),
             1 => $recv.$entry(matching!(0)),
             2 => $recv.$entry(matching!(1)),
-            3 => $recv.$entry(matching!(0 | 1)),
+            // the disjunctive form (top-level alternatives), not an or-pattern
+            3 => $recv.$entry(matching!((0) | (1))),
             4 => $recv.$entry(matching!(2)),
             5 => $recv.$entry(matching!(0 | 2)),
-            6 => $recv.$entry(matching!(1 | 2)),
+            6 => $recv.$entry(matching!((2) | (1))),
             _ => $recv.$entry(matching!(_)),
         }
     };
@@ -515,7 +516,25 @@ fn after_exact<'p, F: UF, O: OrdX, S: Sinker<'p>>(
     if rest.is_empty() {
         sink.take(r)
     } else {
-        chain_multi(r.then(), rest, sink)
+        // whichever builder stage `then()` hands back (the harness does not name it)
+        r.then().chain(rest, sink)
+    }
+}
+
+/// A builder stage that can take the next response segment.
+trait Chain<'p> {
+    fn chain<S: Sinker<'p>>(self, segs: &[Seg], sink: &mut S);
+}
+
+impl<'p, F: UF, O: OrdX> Chain<'p> for DefineMultipleResponses<'p, F, O> {
+    fn chain<S: Sinker<'p>>(self, segs: &[Seg], sink: &mut S) {
+        chain_multi(self, segs, sink)
+    }
+}
+
+impl<'p, F: UF, O: OrdX> Chain<'p> for DefineResponse<'p, F, O> {
+    fn chain<S: Sinker<'p>>(self, segs: &[Seg], sink: &mut S) {
+        chain_first(self, segs, sink)
     }
 }
 
